@@ -445,6 +445,8 @@ def flatEnv : Env where
   loads := fun _ => .notJson
   reprBytes := fun _ => t "b''"
   filterDumps := fun _ => .ok (t "1")
+  encodable := fun _ => true
+  backslashreplace := fun s => s
 
 /-- `{"task_uuid":"u","task_level":[1],"timestamp":1.0,"a\nb":1}` — every rendering is newline-free,
 the compact output is not. -/
@@ -466,6 +468,11 @@ structure StdlibOK (E : Env) : Prop where
   loads : ∀ line e, E.loads line = .raises e → e = .recursionError
   isoTime : ∀ v l e, E.isoTime v l = .error e → caught e = true
   pformat : ∀ v e, E.pformat v = .error e → caught e = true
+  /-- the two report lines (`repr` of a bytes object after an ASCII prefix) can be written to stdout -/
+  reports : ∀ b, E.encodable (t "Not JSON: " ++ E.reprBytes b ++ [10, 10]) = true
+              ∧ E.encodable (t "Not an Eliot message: " ++ E.reprBytes b ++ [10, 10]) = true
+  /-- what `backslashreplace` produces can be encoded -/
+  escaped : ∀ s, E.encodable (E.backslashreplace s) = true
 
 theorem has_all_required {m : Fields} (h : (requiredFields.any fun r => !has m r) = false) :
     (∃ v, get? m kTaskLevel = some v) ∧ (∃ v, get? m kTaskUuid = some v) ∧ (∃ v, get? m kTimestamp = some v) := by
@@ -539,13 +546,28 @@ theorem format_error_cases (E : Env) (compact localTz : Bool) (m : Fields) (e : 
           · rename_i x hx; cases h; exact Or.inr (Or.inl ⟨tv, localTz, hts _ hx⟩)
           · cases h
 
+theorem report_ok (E : Env) (mk : Text → Out) (s : Text) (h : E.encodable s = true) : report E mk s = mk s := by
+  simp [report, write, h]
+
+/-- the guarded write of a rendering never aborts once `backslashreplace` output is encodable; what is
+written is the rendering itself when stdout can encode it, else its escaped form -/
+theorem writeResult_spec (E : Env) (hesc : ∀ s, E.encodable (E.backslashreplace s) = true) (s : Text) :
+    writeResult E s = .formatted (if E.encodable s then s else E.backslashreplace s) := by
+  unfold writeResult write
+  by_cases h : E.encodable s = true
+  · simp [h]
+  · simp [h, hesc]
+
 /-- **`cli_total`.**  For every input line whatsoever — arbitrary bytes, any JSON value, objects with
-or without the required fields, well or ill typed — the program writes a formatted message, a
-`Not JSON` report or a `Not an Eliot message` report, and goes on; it never aborts. -/
+or without the required fields, well or ill typed, with text stdout cannot encode in names, uuid or
+level — the program writes a formatted message, a `Not JSON` report or a `Not an Eliot message` report,
+and goes on; it never aborts. -/
 theorem cli_total (E : Env) (hE : StdlibOK E) (compact localTz : Bool) (line : Bytes) :
     (cliLine E compact localTz line).isAbort = false := by
+  have hNJ := report_ok E Out.notJson _ (hE.reports (rstripNl line)).1
+  have hNE := report_ok E Out.notEliot _ (hE.reports (rstripNl line)).2
   unfold cliLine
-  simp only
+  simp only [hNJ, hNE]
   split
   · rfl
   · rename_i e hl
@@ -557,7 +579,7 @@ theorem cli_total (E : Env) (hE : StdlibOK E) (compact localTz : Bool) (line : B
     · rename_i hreq
       have hreq' : (requiredFields.any fun r => !has m r) = false := by simpa using hreq
       split
-      · rfl
+      · rw [writeResult_spec E hE.escaped]; rfl
       · rename_i e he
         have hc : caught e = true := by
           rcases format_error_cases E compact localTz m e hreq' he with h | ⟨v, l, h⟩ | ⟨-, v, h⟩
@@ -581,33 +603,52 @@ theorem cli_run_total (E : Env) (hE : StdlibOK E) (compact localTz : Bool) : ∀
     | notJson s => simp [ih]
     | notEliot s => simp [ih]
 
+/-- A message whose rendering stdout cannot encode (a lone surrogate in a field name, the task uuid
+or a level element) is written in escaped form, for every `Env` whose `backslashreplace` output is
+encodable (it used to abort the program with `UnicodeEncodeError`). -/
+theorem cli_escapes_unencodable (E : Env) (hesc : ∀ s, E.encodable (E.backslashreplace s) = true)
+    (compact localTz : Bool) (line : Bytes) (m : Fields) (s : Text)
+    (hl : E.loads line = .value (.obj m)) (hreq : (requiredFields.any fun r => !has m r) = false)
+    (hf : (if compact then compactFormat E m localTz else prettyFormat E m localTz) = .ok s)
+    (hbad : E.encodable (s ++ [10]) = false) :
+    cliLine E compact localTz line = .formatted (E.backslashreplace (s ++ [10])) := by
+  unfold cliLine
+  simp only [hl, hreq, Bool.false_eq_true, if_false, hf]
+  rw [writeResult_spec E hesc]
+  simp [hbad]
+
 /-- `[1,2]`, `5`, `"s"`, `null`, `true`: a JSON value that is not an object is reported, for every `Env`
-(it used to abort the program with `AttributeError`). -/
+that can write the report (it used to abort the program with `AttributeError`). -/
 theorem cli_reports_non_object (E : Env) (compact localTz : Bool) (line : Bytes) (v : JVal)
-    (hl : E.loads line = .value v) (hv : ∀ m, v ≠ .obj m) :
+    (hl : E.loads line = .value v) (hv : ∀ m, v ≠ .obj m)
+    (henc : E.encodable (t "Not an Eliot message: " ++ E.reprBytes (rstripNl line) ++ [10, 10]) = true) :
     cliLine E compact localTz line = .notEliot (t "Not an Eliot message: " ++ E.reprBytes (rstripNl line) ++ [10, 10]) := by
   unfold cliLine
+  simp only [report_ok E Out.notEliot _ henc]
   rw [hl]
   cases v with
   | obj m => exact absurd rfl (hv m)
   | _ => rfl
 
 /-- An object with the three required fields whose `task_level` is a number, `null` or a boolean is
-reported, in the compact format for every `Env`, in the pretty format whenever `pformat` copes with
+reported, in the compact format for every such `Env`, in the pretty format whenever `pformat` copes with
 the values (it used to abort with `TypeError`). -/
 theorem cli_reports_bad_task_level (E : Env) (localTz : Bool) (line : Bytes) (m : Fields) (lv : JVal)
     (hl : E.loads line = .value (.obj m)) (hreq : (requiredFields.any fun r => !has m r) = false)
-    (hlv : get? m kTaskLevel = some lv) (hit : iterOf lv = none) :
+    (hlv : get? m kTaskLevel = some lv) (hit : iterOf lv = none)
+    (henc : E.encodable (t "Not an Eliot message: " ++ E.reprBytes (rstripNl line) ++ [10, 10]) = true) :
     cliLine E true localTz line = .notEliot (t "Not an Eliot message: " ++ E.reprBytes (rstripNl line) ++ [10, 10])
     ∧ (∀ body, prettyBody E m = .ok body →
         cliLine E false localTz line = .notEliot (t "Not an Eliot message: " ++ E.reprBytes (rstripNl line) ++ [10, 10])) := by
   obtain ⟨-, ⟨uv, huv⟩, -⟩ := has_all_required hreq
   constructor
   · unfold cliLine
+    simp only [report_ok E Out.notEliot _ henc]
     rw [hl]
     simp [hreq, compactFormat, levelText, uuidText, hlv, hit, huv, caught]
   · intro body hb
     unfold cliLine
+    simp only [report_ok E Out.notEliot _ henc]
     rw [hl]
     simp [hreq, prettyFormat, hb, levelText, hlv, hit, caught]
 
@@ -646,9 +687,11 @@ def deepEnv : Env := { flatEnv with
 theorem cli_total_needs_pformat :
     ¬ (∀ (E : Env), (∀ line e, E.loads line = .raises e → e = .recursionError) →
         (∀ v l e, E.isoTime v l = .error e → caught e = true) →
+        (∀ s, E.encodable s = true) →
         ∀ (compact localTz : Bool) (line : Bytes), (cliLine E compact localTz line).isAbort = false) := by
   intro h
-  have := h deepEnv (by intro line e he; simp [deepEnv] at he) (by intro v l e he; simp [deepEnv, flatEnv] at he) false false []
+  have := h deepEnv (by intro line e he; simp [deepEnv] at he) (by intro v l e he; simp [deepEnv, flatEnv] at he)
+    (by intro s; rfl) false false []
   rw [cli_aborts_on_pformat_recursion deepEnv false [] _ (t "x") (.arr []) rfl (by decide)
     (by rw [show shown _ = [(t "x", JVal.arr [])] from rfl]; exact List.mem_singleton.mpr rfl)
     (by intro x; cases x <;> simp [deepEnv]) rfl] at this
@@ -703,8 +746,19 @@ example : prettyFormat flatEnv exMsg false
     = .ok (t "u -> /u/u\n1970-01-01T00:00:01Z\n  action_type: v\n  action_status: v\n  k: v\n  x: v\n") := by rfl
 example : compactFormat flatEnv exMsg false
     = .ok (t "u/u/u 1970-01-01T00:00:01Z action_type=1 action_status=1 k=1 x=1") := by rfl
+/-- stdout is UTF-8-like (refuses the code point D800), `str()` of everything holds that code point -/
+def surEnv : Env := { flatEnv with
+  pyStr := fun _ => [117, 0xD800]
+  encodable := fun s => !s.contains 0xD800
+  backslashreplace := fun s => s.flatMap fun c => if c = 0xD800 then t "\\ud800" else [c]
+  loads := fun _ => .value (.obj exMsg) }
+
+example : cliLine surEnv true false [] =
+    .formatted (t "u\\ud800/u\\ud800/u\\ud800 1970-01-01T00:00:01Z action_type=1 action_status=1 k=1 x=1\n") := by rfl
+
 example : StdlibOK flatEnv :=
-  ⟨by intro line e he; simp [flatEnv] at he, by intro v l e he; simp [flatEnv] at he, by intro v e he; simp [flatEnv] at he⟩
+  ⟨by intro line e he; simp [flatEnv] at he, by intro v l e he; simp [flatEnv] at he, by intro v e he; simp [flatEnv] at he,
+   by intro b; exact ⟨rfl, rfl⟩, by intro s; rfl⟩
 example : cliLine { flatEnv with loads := fun _ => .value (.arr [.int 1, .int 2]) } false false [91, 10]
     = .notEliot (t "Not an Eliot message: b''\n\n") := by rfl
 example : cliLine { flatEnv with loads := fun _ => .raises .recursionError } true false [91, 10] = .notJson (t "Not JSON: b''\n\n") := by rfl
